@@ -23,7 +23,7 @@ var c03Sanctioned = map[string][]string{
 		"strings.Contains(strings.TrimPrefix(strings.Fields(…)[1:int],\"v\":string),\"/go.mod\":string)",
 	},
 	"extractor/filesystem/language/java/gradlelockfile.Extractor.Extract": {
-		"!bufio.Scanner.Scan(bufio.NewScanner(param2.Reader))",
+		"!bufio.Scanner.Scan(bufio.NewScanner(param1.Reader))",
 		"!extractor/filesystem/language/java/gradlelockfile.isGradleLockFileDepLine(strings.TrimSpace(bufio.Scanner.Text(bufio.NewScanner(…))))",
 		"extractor/filesystem/language/java/gradlelockfile.parseToGradlePackageDetail(strings.TrimSpace(bufio.Scanner.Text(…)))#1 != nil:error",
 	},
@@ -61,7 +61,7 @@ var c03Sanctioned = map[string][]string{
 		"builtin.len(regexp.Regexp.FindStringSubmatch(nameVersionRegexp,….specs[ι])) < 3:int",
 		"builtin.len(regexp.Regexp.FindStringSubmatch(nameVersionRegexp,….specs[ι])[1:int]) == 0",
 		"builtin.len(regexp.Regexp.FindStringSubmatch(nameVersionRegexp,….specs[ι])[2:int]) == 0",
-		"range-end: extractor/filesystem/language/ruby/gemfilelock.parseLockfileSections(param2)#0",
+		"range-end: extractor/filesystem/language/ruby/gemfilelock.parseLockfileSections(param1)#0",
 		"range-end: …#0[ι].specs",
 		"range-end: …#0[ι].specs",
 	},
